@@ -193,6 +193,10 @@ class StructureMetaType(MetaType):
                 # If a field already has an offset, it's leading
                 offset = field.offset
 
+            # The offset before rounding up: a bit field that continues the current storage unit stays in that unit,
+            # also when the unit is smaller than its alignment (uint24: 3 bytes, aligned to 4)
+            unaligned_offset = offset
+
             if align and offset is not None:
                 # Round to next alignment
                 offset += -offset & (field.alignment - 1)
@@ -205,6 +209,16 @@ class StructureMetaType(MetaType):
 
                 if isinstance(field_type, EnumMetaType):
                     field_type = field_type.type
+
+                if (
+                    bits_remaining != 0
+                    and field_type == bits_type
+                    and field.offset is None
+                    and unaligned_offset is not None
+                    and bits_field_offset is not None
+                    and unaligned_offset == bits_field_offset + bits_type.size
+                ):
+                    offset = unaligned_offset
 
                 # Bit fields have special logic
                 if (
@@ -278,9 +292,12 @@ class StructureMetaType(MetaType):
                 stream.seek(offset)
 
             if cls.__align__ and field.offset is None:
-                # Previous field was dynamically sized and we need to align
-                offset += -offset & (field.alignment - 1)
-                stream.seek(offset)
+                bits_type = field.type.type if isinstance(field.type, EnumMetaType) else field.type
+                if not (field.bits and bit_buffer._type == bits_type and bit_buffer._remaining):
+                    # Previous field was dynamically sized and we need to align
+                    # (a bit field that continues the current storage unit is read from that unit)
+                    offset += -offset & (field.alignment - 1)
+                    stream.seek(offset)
 
             if field.bits:
                 if isinstance(field.type, EnumMetaType):
